@@ -15,11 +15,16 @@ LEAN_PROPS = 'PlumpyModel.Props.C03'
 ASSUMPTIONS = [
     'exactly one injected fault per run: (hook point, occurrence index, raise before / after calling super())',
     'scenarios: plain run (outputs, Continue, Wait/resume), run with pause/play at every position, run with kill at every '
-    'position, run with a call_soon callback; asyncio driven one callback at a time',
+    'position, run with a call_soon callback, requests issued by listeners from inside notifications; asyncio driven one '
+    'callback at a time',
     'hooks of the EXCEPTED state itself (on_except, on_excepted) are not fault points: they only run after another failure',
+    'the n-th out() call of the harness process is mapped to (step function, await points before it) by the harness (OUT_AT)',
 ]
-TRUSTED = ['fault model lean/PlumpyModel/Fault/Model.lean: transition_to with raising hooks (hand-written mirror), compared with '
-           'the real transition outcome on every case']
+TRUSTED = ['lean/PlumpyModel/Fault/Process.lean: the process-control model with listeners with user overrides in every lifecycle hook '
+           '(hand-written twins of PM/Listener.lean; whole runs, compared with the real run after every op of every case); that the '
+           'twins of a run whose fault has not fired compute what PM/Listener.lean computes is tested by that comparison, not proved',
+           'lean/PlumpyModel/Fault/Model.lean: one transition_to with raising hooks, the swallowing loops (listeners, cleanups), '
+           'construction, out() (hand-written, compared on every case that exercises them)']
 
 STATE_HOOKS = ['on_run', 'on_running', 'on_exit_running', 'on_wait', 'on_waiting', 'on_exit_waiting', 'on_finish',
                'on_finished', 'on_kill', 'on_killed', 'on_terminated', 'on_close']
@@ -76,6 +81,7 @@ class Proc(plumpy.Process):
         self._fault = fault
         self._fault_exc = (FalsyFaultExc if (fault is not None and len(fault) > 2 and isinstance(fault[2], int) and fault[2] % 2 == 0) else FaultExc)('injected')
         self._trace = []
+        self._acts = []
         super().__init__(*a, **kw)
 
     def _step_fault(self, name):
@@ -87,6 +93,7 @@ class Proc(plumpy.Process):
 
     async def run(self):
         self._trace.append('run')
+        self._acts.append((0, (), (), bool(self.paused)))
         self._ran_paused = getattr(self, '_ran_paused', False) or bool(self.paused)
         self.out('o1', 1)
         await asyncio.sleep(0)
@@ -95,6 +102,7 @@ class Proc(plumpy.Process):
 
     def s2(self, a, k=None):
         self._trace.append('s2')
+        self._acts.append((1, (a,), ((0, k),), bool(self.paused)))
         self._ran_paused = getattr(self, '_ran_paused', False) or bool(self.paused)
         self._step_fault('s2')
         self.out('o2', 2)
@@ -102,6 +110,7 @@ class Proc(plumpy.Process):
 
     async def s3(self, v=None):
         self._trace.append('s3')
+        self._acts.append((2, () if v is None else (v,), (), bool(self.paused)))
         self._ran_paused = getattr(self, '_ran_paused', False) or bool(self.paused)
         await asyncio.sleep(0)
         self._step_fault('s3')
@@ -153,14 +162,49 @@ def _is_closed(p):
         return bool(getattr(p, '_closed', False))
 
 
+PROGRAM = ['case 0', 'fn 0 1 cont 1 1 1 1 0=2', 'fn 1 0 wait 2', 'fn 2 1 stop 5 1']      # Proc for `pmodel faultrun`
+NOTIF = {'on_process_running': 'run', 'on_process_waiting': 'wai', 'on_process_paused': 'pau', 'on_process_played': 'pla',
+         'on_process_finished': 'fin', 'on_process_excepted': 'exc', 'on_process_killed': 'kil'}
+STEP_AT = {'run': (0, 1), 's2': (1, 0), 's3': (2, 1)}      # step function -> (fn id, await points before its `_step_fault`)
+OUT_AT = {1: (0, 0), 2: (1, 0)}                             # n-th out() call of Proc -> (fn id, await points before it)
+
+
+def fault_line(f):
+    """the `fault …` line that tells the model about the case's fault"""
+    if f is None:
+        return 'fault none'
+    if f[0] == 'hook' and f[1] in STATE_HOOKS + PAUSE_HOOKS:
+        return f'fault hook {f[1]} {f[2]} {f[3]}'
+    if f[0] == 'hook' and f[1] in OUTPUT_HOOKS:
+        return 'fault step %d %d' % OUT_AT[f[2]] if f[2] in OUT_AT else 'fault none'
+    if f[0] == 'step':
+        return 'fault step %d %d' % STEP_AT[f[1]]
+    if f[0] == 'callback':
+        return 'fault callback'
+    return 'fault none'          # listener / cleanup: swallowed
+
+
 def run_case(case):
-    """case = dict(fault=(kind, name, occurrence, variant) | None, schedule={pos: [ops]})"""
+    """case = dict(fault=(kind, name, occurrence, variant) | None, schedule={pos: [ops]}, plan=[((notification, occ), op)])
+    Besides the summary the monitors read, the run is recorded as the op lines of `pmodel faultrun` (`ops`) with the observation
+    after every op (`obs`, the format of harness/pm.py plus fired / excfault / actsx / rep / loop / trans)."""
     logging.disable(logging.CRITICAL)
     fault, sched = case['fault'], {int(k): v for k, v in case['schedule'].items()}
     loop = detloop.DetLoop()
     asyncio.set_event_loop(loop)
-    loop_errs = []
-    loop.set_exception_handler(lambda l, c: loop_errs.append(type(c.get('exception')).__name__ if c.get('exception') else str(c.get('message'))))
+    loop_errs, gc_notes = [], []
+    fault_name = 'user8' if fault is not None and fault[0] == 'callback' else 'user99'
+
+    def excname(e):
+        return fault_name if isinstance(e, FaultExc) else type(e).__name__
+
+    def on_loop_error(_loop, context):
+        # an unretrieved exception on an abandoned future (reported by the garbage collector) did not escape from a callback
+        if 'never retrieved' in str(context.get('message', '')) and 'future' in context and 'task' not in context:
+            gc_notes.append(1)
+            return
+        loop_errs.append(type(context.get('exception')).__name__ if context.get('exception') else str(context.get('message')))
+    loop.set_exception_handler(on_loop_error)
     res = dict(constructed=True, calls=[])
     try:
         p = Proc(loop=loop, fault=fault)
@@ -168,9 +212,11 @@ def run_case(case):
         res.update(constructed=False, construct_error=type(e).__name__)
         loop.close()
         return res
-    lis = FaultListener(fault, {(k[0], int(k[1])): v for k, v in (case.get('plan') or [])}, lambda op: do(op))
+    lis = FaultListener(fault, {(k[0], int(k[1])): v for k, v in (case.get('plan') or [])}, lambda op: do(op, from_listener=True))
+    other = FaultListener(None)          # a second listener: a failing listener must not keep the others from being notified
     p.add_process_listener(lis)
-    cleanups = []
+    p.add_process_listener(other)
+    cleanups, cleanups2 = [], []
 
     def cleanup():
         cleanups.append(1)
@@ -178,13 +224,41 @@ def run_case(case):
             p._fault_fired = p._fault_exc
             raise p._fault_exc
     p.add_cleanup(cleanup)
+    p.add_cleanup(lambda: cleanups2.append(1))      # a failing cleanup must not keep the others from running
     entered = [p.state.value]
     p._entered_ref = entered
     p.add_state_event_callback(StateEventHook.ENTERED_STATE, lambda sm, h, st: entered.append(sm.state.value))
     task = loop.create_task(p.step_until_terminated())
-    handed = []
+    handed, handed_objs = [], []
+    ops, obs, rep = [], [], []
+    cb_handles = []
 
-    def do(op):
+    def fstat(a):
+        return ('P' if not a.done() else 'C' if a.cancelled() else 'E:' + excname(a.exception()) if a.exception() is not None else 'D')
+
+    def observe(ret):
+        f = p.future()
+        fs = ('pending' if not f.done() else 'cancelled' if f.cancelled() else
+              'exc:' + excname(f.exception()) if f.exception() is not None else 'result')
+        ts = 'pending' if not task.done() else 'crashed' if (task.cancelled() or task.exception() is not None) else 'done'
+        st = p.state
+        if st == ps.ProcessState.FINISHED:
+            out = f"finished:{'-' if p.result() is None else p.result()}:{1 if p.successful() else 0}"
+        elif st == ps.ProcessState.EXCEPTED:
+            out = 'excepted:' + excname(p.exception())
+        else:
+            out = 'killed' if st == ps.ProcessState.KILLED else 'live'
+        tr = ' '.join(f"{x[0]}({','.join(str(v) for v in x[1])};{','.join(f'{k}={v}' for k, v in x[2])})@{1 if x[3] else 0}" for x in p._acts)
+        stepping, closed = getattr(p, '_stepping', None), getattr(p, '_closed', None)
+        sx = [fstat(a) for a in handed_objs]
+        obs.append(
+            f"ret={ret} st={st.value} paused={int(p.paused)} stepping={'?' if stepping is None else int(stepping)} "
+            f"closed={'?' if closed is None else int(closed)} fut={fs} task={ts} acts={''.join(x[0] for x in sx)} trace={tr} "
+            f"notif={','.join(NOTIF[n] for n in lis.ev if n in NOTIF)} cleanups={len(cleanups)} ctx= entered=? out={out} "
+            f"fired={int(p._fault_fired is not None)} excfault={int(st == ps.ProcessState.EXCEPTED and p.exception() is p._fault_exc)} "
+            f"actsx={','.join(sx)} rep={','.join(rep)} loop={','.join(loop_errs)} trans={int(bool(getattr(p, '_transitioning', False)))}")
+
+    def do(op, from_listener=False):
         live = not p.has_terminated()
         r, raised = None, None
         try:
@@ -202,21 +276,52 @@ def run_case(case):
                         p._fault_fired = p._fault_exc
                         res['terminated_before_fault'] = p.has_terminated()
                         raise p._fault_exc
-                p.call_soon(cb)
+                cb_handles.append(p.call_soon(cb))
         except BaseException as e:  # noqa
             raised = e
         if asyncio.isfuture(r):
             handed.append((op, r))
+            if not any(r is a for a in handed_objs):
+                handed_objs.append(r)
         res['calls'].append(dict(op=op, live=live, raised=type(raised).__name__ if raised else None,
                                  raised_is_fault=raised is p._fault_exc, ret='fut' if asyncio.isfuture(r) else r,
-                                 state_after=p.state.value, terminated_after=p.has_terminated()))
+                                 state_after=p.state.value, terminated_after=p.has_terminated(), from_listener=from_listener))
+        ret = ('fut' if asyncio.isfuture(r) else 'raised:' + excname(raised) if raised is not None else
+               {True: 'T', False: 'F', None: 'none'}.get(r, 'other'))
+        if from_listener:
+            # issued from inside a notification: not an op of the line protocol; what it raised went to the listener
+            if raised is not None:
+                rep.append(f'{op}:{ret}')
+            return
+        ops.append({'resume': 'resume 7', 'callsoon': 'callsoon ' + ('raise' if fault is not None and fault[0] == 'callback' else 'ok')}.get(op, op))
+        observe(ret)
+
+    def tick():
+        """run ONE callback of the loop (whatever it is); the stepping task and call_soon callbacks are ops of the protocol, the
+        rest is plumbing and runs silently"""
+        lab = loop.head_label()
+        if lab is None:
+            return False
+        name = None
+        if lab[0] == 'task' and lab[2] is task:
+            name = 'stepper'
+        elif lab[0] == 'task' and lab[1].endswith('ProcessCallback.run'):
+            frame = lab[2].get_coro().cr_frame
+            handle = frame.f_locals.get('self') if frame is not None else None
+            if any(h is handle for h in cb_handles):
+                name = 'usercb ' + ('raise' if fault is not None and fault[0] == 'callback' else 'ok')
+        loop.step_one()
+        if name is not None:
+            ops.append('tick ' + name)
+            observe('none')
+        return True
 
     n = 0
     last = max(sched.keys(), default=-1)
     while n < 60:
         for op in sched.get(n, []):
             do(op)
-        if not loop.step_one() and last <= n:
+        if not tick() and last <= n:
             break
         n += 1
     # a live process must still be controllable: a fresh pause request takes effect (then the run is completed by play)
@@ -226,7 +331,7 @@ def run_case(case):
             do('play')
         do('pause')
         k = 0
-        while k < 50 and not p.paused and not p.has_terminated() and loop.step_one():
+        while k < 50 and not p.paused and not p.has_terminated() and tick():
             k += 1
         res['probe_pause'] = bool(p.paused) or p.has_terminated()
     # completion: play, resume, drain
@@ -236,7 +341,7 @@ def run_case(case):
             if p.state == ps.ProcessState.WAITING:
                 do('resume')
         k = 0
-        while k < 200 and loop.step_one():
+        while k < 200 and tick():
             k += 1
         if p.has_terminated() and not loop.n_ready():
             break
@@ -254,7 +359,8 @@ def run_case(case):
                 ('exc-fault' if f.exception() is p._fault_exc else 'exc:' + type(f.exception()).__name__) if f.exception() is not None else 'result'),
         task=('pending' if not task.done() else 'crashed:' + type(task.exception()).__name__ if (not task.cancelled() and task.exception() is not None)
               else 'cancelled' if task.cancelled() else 'done'),
-        loop_errs=loop_errs, cleanups=len(cleanups), outputs=dict(p.outputs), notifications=list(lis.ev),
+        loop_errs=loop_errs, cleanups=len(cleanups), cleanups_other=len(cleanups2), outputs=dict(p.outputs), notifications=list(lis.ev),
+        notifications_other=list(other.ev),
         handed=[(op, 'pending' if not a.done() else 'cancelled' if a.cancelled() else
                  ('exc-fault' if a.exception() is p._fault_exc else 'exc:' + type(a.exception()).__name__) if a.exception() is not None
                  else 'result:' + str(a.result())) for op, a in handed],
@@ -262,6 +368,7 @@ def run_case(case):
         result=p.result() if p.state == ps.ProcessState.FINISHED else None,
         fault_ctx=p._fault_ctx,
         ran_paused=bool(getattr(p, '_ran_paused', False)),
+        ops=ops, obs=obs,
     )
     loop.close()
     return res
@@ -421,6 +528,18 @@ def gen_cases(ctx):
     return cases
 
 
+# NOT part of the enumeration (the monitors of the pause / play hooks assume that nothing but the schedule pauses or plays): a pause
+# / play hook failing while a LISTENER interferes with the pause that is being enacted.  The model (`pmodel faultrun`) agrees with
+# the code on all 528 such cases (PAUSE_HOOKS x occurrence <= 2 x before/after x the 22 plans x 2 schedules), and both show a
+# defect: when the pending pause action performs the step's transition, a listener of that transition calls kill() (which
+# supersedes, i.e. cancels, the pause action that is running) and on_pausing / on_paused then raises, `CancellableAction.run`
+# re-raises ("cancelled while it was running, there is no one left to report to"), the exception leaves `Process.step` and the
+# stepping task dies with it: the process stays RUNNING, the kill action is cancelled by the `finally`, `_killing` keeps pointing at
+# it.  Lean witness: `PMF.FP.C03_witness_superseded_pause_action_escapes` (Props/C03.lean).
+NESTED_WITNESS = dict(fault=('hook', 'on_pausing', 1, 'before'), schedule={1: ['pause'], 4: ['play']},
+                      plan=[(('on_process_running', 2), 'kill')])
+
+
 def _work(case):
     if case['fault'] is not None and case['fault'][0] == 'construct':
         return run_construct(case), None
@@ -453,12 +572,76 @@ def run_construct(case):
     return out
 
 
+OBS_KEYS = ['ret', 'st', 'paused', 'stepping', 'closed', 'fut', 'task', 'acts', 'trace', 'notif', 'cleanups', 'ctx', 'entered', 'out',
+            'fired', 'excfault', 'actsx', 'rep', 'loop', 'trans']
+
+
+def parse_obs(line):
+    """split an observation line into its fields (values may contain blanks and '=': the keys come in a fixed order)"""
+    pos, at = [], 0
+    for k in OBS_KEYS:
+        i = line.find(('' if k == 'ret' else ' ') + k + '=', at)
+        if i < 0:
+            return None
+        pos.append((k, i + (0 if k == 'ret' else 1)))
+        at = i + 1
+    out = {}
+    for j, (k, i) in enumerate(pos):
+        end = pos[j + 1][1] - 1 if j + 1 < len(pos) else len(line)
+        out[k] = line[i + len(k) + 1:end]
+    return out
+
+
+def diff_obs(case, impl, model):
+    """first field in which the implementation's observation differs from the model's (None: they agree)"""
+    a, b = parse_obs(impl), parse_obs(model)
+    if a is None or b is None:
+        return 'unparsable'
+    f = case['fault']
+    hookfault = f is not None and f[0] == 'hook' and f[1] in STATE_HOOKS + PAUSE_HOOKS
+    for k in OBS_KEYS:
+        if k in ('ctx', 'entered') or a[k] == '?' or (k == 'fired' and not hookfault):
+            continue
+        if a[k] != b[k]:
+            return k
+    return None
+
+
+def model_lines(case, res):
+    """the whole run as lines for `pmodel faultrun`: program, plan, fault, then the ops the harness performed"""
+    head = list(PROGRAM)
+    if case.get('plan'):
+        head.append('plan ' + ' '.join(f'{NOTIF[k[0]]}:{k[1]}:{op}' for k, op in case['plan']))
+    head.append(fault_line(case['fault']))
+    return head, list(res['ops'])
+
+
+def small_queries(case, res):
+    """(line for `pmodel fault`, the implementation's answer) for the faults in user code that is not a lifecycle hook of a transition:
+    output hooks (what the faulty out() call had done when it raised), listeners and cleanups (the loop that calls them)"""
+    f = case['fault']
+    out = []
+    if f[0] == 'hook' and f[1] in OUTPUT_HOOKS and res.get('fired'):
+        port = {1: 'o1', 2: 'o2'}[f[2]]
+        n_emitted = sum(1 for n in res['notifications'] if n == 'on_output_emitted')
+        out.append((f"outcall {'emitting' if f[1] == 'on_output_emitting' else 'emitted'} {f[3]}",
+                    f"stored={int(port in res['outputs'])} notified={int(n_emitted >= f[2])} raised=fault"))
+    if f[0] == 'listener' and res.get('fired'):
+        # the faulty listener and the other one: both were called for the notification in which the fault fired
+        n_other = sum(1 for n in res['notifications_other'] if n == f[1])
+        out.append(('callall 1 0', f"ran={1 + int(n_other >= f[2])} logged=1"))
+    if f[0] == 'cleanup' and res.get('fired'):
+        out.append(('callall 1 0', f"ran={res['cleanups'] + res['cleanups_other']} logged=1"))
+    return out
+
+
 def run(ctx):
     cases = gen_cases(ctx)
     with mp.Pool(ctx.workers) as pool:
         results = pool.map(_work, cases, chunksize=50)
     failures, divergences = [], []
     queries, qidx = [], []
+    small, sidx = [], []
     fired = 0
     hist = {}
     distinct = set()
@@ -470,6 +653,8 @@ def run(ctx):
             elif res.get('construct_error') != 'FaultExc':
                 failures.append(dict(signature='c03-construction-wrong-exception', clause='an exception raised during construction propagates to the caller', case=case, detail=res.get('construct_error')))
             fired += 1
+            small.append((f'construct {f[3]}', f"constructed={int(bool(res.get('constructed')))} raised={'fault' if res.get('construct_error') == 'FaultExc' else 'none'}"))
+            sidx.append(i)
             continue
         if res.get('fired'):
             fired += 1
@@ -481,21 +666,59 @@ def run(ctx):
         if q is not None:
             queries.append(q)
             qidx.append(i)
+        for q in small_queries(case, res):
+            small.append(q)
+            sidx.append(i)
+    # (1) the transition in which a lifecycle-hook fault fired, against the transition model (`pmodel fault`, Fault/Model.lean)
     model = ctx.model.run('fault', queries)
     if model is not None:
         for q, i, m in zip(queries, qidx, model):
             il = impl_line(results[i][0])
             if il != m:
-                divergences.append(dict(case=cases[i], query=q, impl=il, model=m))
+                divergences.append(dict(case=cases[i], stream='transition', query=q, impl=il, model=m))
+    # (2) construction, out() calls, listener and cleanup loops against their small models (same driver)
+    model = ctx.model.run('fault', [q for q, _ in small])
+    if model is not None:
+        for (q, il), i, m in zip(small, sidx, model):
+            if il != m:
+                divergences.append(dict(case=cases[i], stream='small', query=q, impl=il, model=m))
+    # (3) EVERY case as a whole run against the process-control model with the injected fault (`pmodel faultrun`,
+    #     Fault/Process.lean): program, plan, fault and the ops performed; the observation after every op is compared
+    runs = [(i, c, r[0]) for i, (c, r) in enumerate(zip(cases, results)) if c['fault'][0] != 'construct' and r[0].get('constructed')]
+    chunks, spans = [], []
+    for k in range(0, len(runs), 200):
+        cur, span = [], []
+        for i, c, r in runs[k:k + 200]:
+            head, ops = model_lines(c, r)
+            span.append((i, len(cur) + len(head), len(ops)))
+            cur.extend(head + ops)
+        chunks.append(cur)
+        spans.append(span)
+    outs = ctx.model.run_parallel('faultrun', chunks)
+    n_ops = 0
+    if outs is not None:
+        for out, span in zip(outs, spans):
+            for i, at, n in span:
+                obs = results[i][0]['obs']
+                for j in range(n):
+                    n_ops += 1
+                    d = diff_obs(cases[i], obs[j], out[at + j]) if at + j < len(out) else 'missing'
+                    if d is not None:
+                        divergences.append(dict(case=cases[i], stream='run', op_index=j, op=results[i][0]['ops'][j], field=d,
+                                                impl=obs[j], model=out[at + j] if at + j < len(out) else None))
+                        break
     return dict(
         evaluations=len(cases), distinct_nontrivial=len(distinct),
         rule='every lifecycle / output / pause hook x occurrence <= 3 x raise before/after super(), every step function, a call_soon '
              'callback, every listener method, a cleanup and construction, each x scenarios (plain run, pause/play at all positions, '
-             'kill at all positions); non-trivial = the fault fired; distinct = distinct (fault, final state, future, entered log)',
+             'kill at all positions, requests issued by listeners during the transition); non-trivial = the fault fired; distinct = '
+             'distinct (fault, final state, future, entered log); every case is compared op by op with the model run '
+             '(pmodel faultrun), the faulty transition with the transition model (pmodel fault)',
         samples=[dict(case=cases[i], result={k: v for k, v in results[i][0].items() if k in ('state', 'future', 'closed', 'task', 'entered', 'handed')})
                  for i in (0, len(cases) // 2, len(cases) - 3)],
-        traces_validated=len(queries) if model is not None else 0, divergences=divergences, failures=failures,
-        histograms=dict(fired=fired, fault_kinds=hist), exhaustive=True)
+        traces_validated=(len(runs) + len(queries) + len(small)) if outs is not None else 0, divergences=divergences, failures=failures,
+        histograms=dict(fired=fired, fault_kinds=hist, model_runs=len(runs), model_ops_compared=n_ops,
+                        transition_queries=len(queries), small_model_queries=len(small)), exhaustive=True)
 
 
 def replay(ctx, failure):
